@@ -350,3 +350,139 @@ theorem seg_indep_observables (cfg : Cfg) (c : Bytes) (cs : List Bytes) :
   · simpa using congrArg St.phase h
 
 end Srv
+
+namespace Srv
+
+/-! ## extension to arbitrary continuations: `≈` is a congruence for every event -/
+
+theorem startUpload_dead (s : St) : Dead (startUpload s) := by right; simp [startUpload]
+
+/-- non-data events never look at the buffer -/
+theorem step_buf (cfg : Cfg) (s : St) (x : Bytes) (e : Ev) (he : ∀ c, e ≠ .data c) :
+    step cfg { s with buf := x } e = { step cfg s e with buf := x } := by
+  cases e with
+  | data c => exact absurd rfl (he c)
+  | timeout =>
+    show (if s.timer ∧ !s.lost then respondFixed { s with buf := x } 40 "Request timeout" else { s with buf := x }) = _
+    simp only [step]
+    split
+    · exact respondFixed_buf s x _ _
+    · rfl
+  | lost => rfl
+  | mwAllow =>
+    by_cases h1 : s.phase = .mwG
+    · have e1 : step cfg { s with buf := x } .mwAllow = route cfg { { s with allowed := s.allowed + 1 } with buf := x } := by
+        simp [step, h1]
+      have e2 : step cfg s .mwAllow = route cfg { s with allowed := s.allowed + 1 } := by simp [step, h1]
+      rw [e1, e2]; exact route_buf cfg _ x
+    · by_cases h2 : s.phase = .mwT
+      · have e1 : step cfg { s with buf := x } .mwAllow = startUpload { { s with allowed := s.allowed + 1 } with buf := x } := by
+          simp [step, h2]
+        have e2 : step cfg s .mwAllow = startUpload { s with allowed := s.allowed + 1 } := by simp [step, h2]
+        rw [e1, e2]; rfl
+      · have e1 : step cfg { s with buf := x } .mwAllow = { s with buf := x } := by
+          simp only [step]; try (split <;> first | rfl | simp_all)
+        have e2 : step cfg s .mwAllow = s := by simp only [step]; try (split <;> first | rfl | simp_all)
+        rw [e1, e2]
+  | mwDeny l =>
+    by_cases h1 : s.phase = .mwG ∨ s.phase = .mwT
+    · have e1 : step cfg { s with buf := x } (.mwDeny l) = respond { s with buf := x } (rejection l) := by
+        rcases h1 with h | h <;> simp [step, h]
+      have e2 : step cfg s (.mwDeny l) = respond s (rejection l) := by rcases h1 with h | h <;> simp [step, h]
+      rw [e1, e2]; exact respond_buf s x _
+    · have e1 : step cfg { s with buf := x } (.mwDeny l) = { s with buf := x } := by
+        simp only [step]; try (split <;> first | rfl | simp_all)
+      have e2 : step cfg s (.mwDeny l) = s := by simp only [step]; try (split <;> first | rfl | simp_all)
+      rw [e1, e2]
+  | mwRaise =>
+    by_cases h1 : s.phase = .mwG ∨ s.phase = .mwT
+    · have e1 : step cfg { s with buf := x } .mwRaise = respondFixed { s with buf := x } 40 "Middleware error" := by
+        rcases h1 with h | h <;> simp [step, h]
+      have e2 : step cfg s .mwRaise = respondFixed s 40 "Middleware error" := by rcases h1 with h | h <;> simp [step, h]
+      rw [e1, e2]; exact respondFixed_buf s x _ _
+    · have e1 : step cfg { s with buf := x } .mwRaise = { s with buf := x } := by
+        simp only [step]; try (split <;> first | rfl | simp_all)
+      have e2 : step cfg s .mwRaise = s := by simp only [step]; try (split <;> first | rfl | simp_all)
+      rw [e1, e2]
+  | hDone r =>
+    by_cases hp : s.phase = .hPend
+    · have e1 : step cfg { s with buf := x } (.hDone r) = respond { s with buf := x } r := by simp [step, hp]
+      have e2 : step cfg s (.hDone r) = respond s r := by simp [step, hp]
+      rw [e1, e2]; exact respond_buf s x r
+    · simp [step, hp]
+  | hRaise =>
+    by_cases hp : s.phase = .hPend
+    · have e1 : step cfg { s with buf := x } .hRaise = respondDyn { s with buf := x } 40 := by simp [step, hp]
+      have e2 : step cfg s .hRaise = respondDyn s 40 := by simp [step, hp]
+      rw [e1, e2]; exact respondDyn_buf s x 40
+    · simp [step, hp]
+  | uDone r =>
+    by_cases hp : s.phase = .uPend
+    · have e1 : step cfg { s with buf := x } (.uDone r) = respond { s with buf := x } r := by simp [step, hp]
+      have e2 : step cfg s (.uDone r) = respond s r := by simp [step, hp]
+      rw [e1, e2]; exact respond_buf s x r
+    · simp [step, hp]
+  | uRaise =>
+    by_cases hp : s.phase = .uPend
+    · have e1 : step cfg { s with buf := x } .uRaise = respondDyn { s with buf := x } 40 := by simp [step, hp]
+      have e2 : step cfg s .uRaise = respondDyn s 40 := by simp [step, hp]
+      rw [e1, e2]; exact respondDyn_buf s x 40
+    · simp [step, hp]
+
+theorem dead_step (cfg : Cfg) (s : St) (e : Ev) (h : Dead s) : Dead (step cfg s e) := by
+  cases e with
+  | data c => rw [dead_data _ _ _ h]; exact h
+  | timeout => simp only [step]; split; exact respondWith_dead _ _; exact h
+  | lost => left; rfl
+  | mwAllow =>
+    simp only [step]; split
+    · exact route_dead _ _
+    · exact startUpload_dead _
+    · exact h
+  | mwDeny l => simp only [step]; split <;> first | exact respondWith_dead _ _ | exact h
+  | mwRaise => simp only [step]; split <;> first | exact respondWith_dead _ _ | exact h
+  | hDone r => simp only [step]; split <;> first | exact respondWith_dead _ _ | exact h
+  | hRaise => simp only [step]; split <;> first | exact respondWith_dead _ _ | exact h
+  | uDone r => simp only [step]; split <;> first | exact respondWith_dead _ _ | exact h
+  | uRaise => simp only [step]; split <;> first | exact respondWith_dead _ _ | exact h
+
+theorem eqv_eq_of_alive {s t : St} (h : Eqv s t) (hn : ¬ Dead s) : s = t := by
+  obtain ⟨h1, h2⟩ := h
+  have hb := h2 hn
+  obtain ⟨p1, b1, t1, l1, s1, o1, h1', u1, m1, a1, z1, c1⟩ := s
+  obtain ⟨p2, b2, t2, l2, s2, o2, h2', u2, m2, a2, z2, c2⟩ := t
+  simp only [St.mk.injEq] at h1 ⊢
+  simp only at hb
+  obtain ⟨e1, _, e3, e4, e5, e6, e7, e8, e9, e10, e11, e12⟩ := h1
+  exact ⟨e1, hb, e3, e4, e5, e6, e7, e8, e9, e10, e11, e12⟩
+
+/-- `≈` is preserved by every event -/
+theorem eqv_step (cfg : Cfg) {s t : St} (h : Eqv s t) (e : Ev) : Eqv (step cfg s e) (step cfg t e) := by
+  by_cases hd : Dead s
+  · -- both are dead and differ at most in the buffer: write both as buffer updates of one state
+    have h1 := h.1
+    have hs : s = { ({ s with buf := [] } : St) with buf := s.buf } := rfl
+    have ht : t = { ({ s with buf := [] } : St) with buf := t.buf } := by rw [h1]
+    have hd0 : Dead ({ s with buf := [] } : St) := hd
+    by_cases hdat : ∃ c, e = .data c
+    · obtain ⟨c, rfl⟩ := hdat
+      have hdt : Dead t := by rw [ht]; exact hd0
+      rw [dead_data _ _ _ hd, dead_data _ _ _ hdt]; exact h
+    · have he : ∀ c, e ≠ .data c := fun c hc => hdat ⟨c, hc⟩
+      rw [hs, ht, step_buf cfg _ s.buf e he, step_buf cfg _ t.buf e he]
+      exact eqv_setbuf_dead _ _ _ (dead_step cfg _ e hd0)
+  · rw [eqv_eq_of_alive h hd]; exact Eqv.refl _
+
+/-- C07, full form: the reads may be followed by any events (timer, task completions, disconnect);
+    the final state is the same whatever the segmentation of the reads was -/
+theorem seg_indep_then (cfg : Cfg) (s : St) (c : Bytes) (cs : List Bytes) (rest : List Ev) :
+    Eqv (rest.foldl (step cfg) (feedAll cfg s (c :: cs)))
+        (rest.foldl (step cfg) (step cfg s (.data (c ++ cs.flatten)))) := by
+  have h0 := seg_indep cfg s c cs
+  generalize feedAll cfg s (c :: cs) = a at h0
+  generalize step cfg s (.data (c ++ cs.flatten)) = b at h0
+  induction rest generalizing a b with
+  | nil => simpa using h0
+  | cons e es ih => exact ih _ _ (eqv_step cfg h0 e)
+
+end Srv
